@@ -29,18 +29,8 @@ Proof.
   intro E5. eapply skip_string_chops; [|exact E5]. discriminate.
 Qed.
 
-Lemma escaped_hash_step_ok n : step_ok escaped_hash_step n.
-Proof.
-  intros s Hs. unfold step_good, escaped_hash_step.
-  destruct (skip_string [92; 35] s) as [s1|] eqn:E1; [|left; reflexivity].
-  assert (C1 : chops s s1) by (eapply skip_string_chops; [|exact E1]; discriminate).
-  destruct (loop_ok' (length s1) (bytes_or_expr Expr varparam_spec) s1) as (s2 & E2 & S2);
-    [apply bytes_or_expr_ok, Expr_ok|lia|].
-  rewrite E2. cbn [bind]. right. exists s2. split; [reflexivity|].
-  eapply chops_trans_suffix; eauto.
-Qed.
-
-(* parseVarnameOp: Ok with pieces that concatenate to the text, or the assert *)
+(* parseVarnameOp: Ok with pieces that concatenate to the text, or an assert
+   (assert(ok); the asserts of unescapeComment and getRawValueAlign) *)
 Lemma parse_varname_op_post initial s :
   match parse_varname_op initial s with
   | Ok (vo, sp, r) => s = vo ++ sp ++ r
@@ -50,18 +40,18 @@ Lemma parse_varname_op_post initial s :
 Proof.
   unfold parse_varname_op. destruct initial; cbn [negb].
   2:{ destruct (next_bytes is_hspace s) as [sp r] eqn:E. apply next_bytes_eq in E. exact E. }
-  destruct (varname_ok Expr (length s) (Expr_ok _) s) as (s0 & E0 & S0); [lia|].
-  unfold Varname. rewrite E0. cbn [bind].
-  destruct (loop_ok' (length s0) escaped_hash_step s0) as (s1 & E1 & S1);
-    [apply escaped_hash_step_ok|lia|].
-  rewrite E1. cbn [bind].
-  destruct (mk_op (snd (next_bytes is_hspace s1))) as [s3|] eqn:E3; [|reflexivity].
-  destruct (next_bytes is_hspace s3) as [sp r] eqn:E4.
-  apply next_bytes_eq in E4. subst s3.
-  assert (S3 : is_suffix (sp ++ r) s).
-  { eapply is_suffix_trans; [apply chops_suffix, mk_op_chops; exact E3|].
-    eapply is_suffix_trans; [apply next_bytes_suffix|]. eapply is_suffix_trans; eauto. }
-  symmetry. exact (since_suffix _ _ S3).
+  pose proof (unescape_comment_fuel s) as F0.
+  destruct (unescape_comment s) as [[main0 c0]| |]; cbn [bind]; [|congruence|reflexivity].
+  destruct (varname_partition (rtrim_hspace main0)) as (v & m1 & Ev & _). rewrite Ev. cbn [bind].
+  destruct (mk_op (snd (next_bytes is_hspace m1))) as [m3|]; [|reflexivity].
+  pose proof (get_raw_value_align_post s (since (rtrim_hspace main0) m3)) as P.
+  destruct (get_raw_value_align s (since (rtrim_hspace main0) m3)) as [ra| |]; cbn [bind]; [|contradiction|reflexivity].
+  destruct P as (r0 & Hr0).
+  rewrite skip_ok by (rewrite Hr0, app_length; lia). cbn [bind].
+  destruct (next_bytes is_hspace (skipn (length ra) s)) as [sp r] eqn:E4.
+  apply next_bytes_eq in E4.
+  pose proof (since_suffix s (skipn (length ra) s) (skipn_suffix _ _)) as Q.
+  rewrite E4 in Q at 2. symmetry. exact Q.
 Qed.
 
 (* the loop of parseValue: ends without running out of fuel; it asserts only at a newline *)
